@@ -39,6 +39,7 @@ class Unit:
         self.unroll = dict(unroll or {})
         self.bounded = bounded        # uses bounded unrolling: never counted as proved
         self.note = note
+        self.shards = 1               # >1: the driver explores the alternatives of wide branches (constant tables) in parallel
 
     def config(self, exclude=()):
         from .interp import Config
@@ -111,8 +112,52 @@ class FunctionContract:
         return u
 
 
+class RelContract(FunctionContract):
+    """relational contract: pre + post(E, args, kw, result) predicate; the result is havoc'd at call sites
+    (result(E, args, kw) builds a fresh value of the right shape) and `post` is assumed; may_raise lists the
+    exception classes the function may raise (any other escaping exception fails the contract)."""
+    may_raise = ()
+
+    def result(self, E, *args, **kw):
+        return None
+
+    def post(self, E, args, kw, result):
+        return True
+
+    def apply(self, I, args, kw):
+        from .sym import SymE
+        E = SymE(I.st, I.cfg)
+        E.I = I
+        I.st.prove('pre@%s' % self.qual, self.pre(E, *args, **kw), kind='pre')
+        if self.may_raise:
+            k = I.st.branch(1 + len(self.may_raise), 'outcome:' + self.qual)
+            if k > 0:
+                raise E.Raised(self.may_raise[k - 1])
+        r = self.result(E, *args, **kw)
+        E.assume(self.post(E, args, kw, r))
+        return r
+
+    def unit(self):
+        c = self
+
+        def fn(E):
+            args, kw = c.make(E)
+            E.assume(c.pre(E, *args, **kw))
+            E.cover('pre-satisfiable')
+            real = E.attempt(lambda: E.call(c.qual, *args, **kw))
+            if not real.ok:
+                E.prove('post:raises-only-declared', real.exc.isinstance(*c.may_raise) if c.may_raise else False, real=real.exc.cls)
+                return
+            E.prove('post:relation', c.post(E, args, kw, real.value))
+        loops = {(c.qual, k): v for k, v in c.loops.items()}
+        u = Unit('contract/' + c.qual + getattr(c, 'suffix', ''), fn, c.props, contracts=c.callee_contracts, loops=loops, level='helper', functions=[c.qual])
+        u.kind = 'contract'
+        u.contract = c
+        return u
+
+
 # ----------------------------------------------------------------------------- running a unit (symbolic)
-def run_symbolic(unit, z3_ms=10000, cvc5_ms=20000, both=False, exclude_contracts=()):
+def run_symbolic(unit, z3_ms=10000, cvc5_ms=20000, both=False, exclude_contracts=(), shard=None):
     """explore + discharge; returns a JSON-able dict"""
     from . import engine
     from .sym import SymE
@@ -123,7 +168,7 @@ def run_symbolic(unit, z3_ms=10000, cvc5_ms=20000, both=False, exclude_contracts
            'out_of_reach': None, 'error': None, 'functions': {}, 'assumed_contracts': [], 'unknown_calls': [],
            'bounded': unit.bounded, 'covers': []}
     try:
-        res = engine.explore(unit, lambda st: SymE(st, cfg))
+        res = engine.explore(unit, lambda st: SymE(st, cfg), shard=shard)
         out['paths'] = res.paths
         out['out_of_reach'] = res.out_of_reach
         out['assumed_contracts'] = res.assumed
